@@ -25,7 +25,14 @@ P = {
  "C15": (False, "", "", "", "§3 C15"),
  "C16": (False, "", "", "", "§3 C16"),
  "C17": (False, "", "", "", "§3 C17"),
- "C18": (False, "", "", "", "§3 C18"),
+ "C18": (True,
+         "sibling-shape comparison on SSA + def-use plumbing of source metadata (custom analyzer)",
+         "Decides that the yaml/json/hjson front-ends are structurally identical siblings (decode into a local, return the decoder error, "
+         "NewFrom with the caller's options unchanged; file loaders prepend MetaData(Meta{Source:name}) and delegate), that the file name "
+         "reaches options.meta, that every value and Config built by normalize* carries opts.meta and that every error constructor forwards real "
+         "metadata to messageMeta. Holds for all documents at once; equality of the data produced by the three third-party decoders is not decided.",
+         TRUST + "Third-party decoders are outside the tree.",
+         "§3 C18"),
  "C19": (True,
          "static def-use flow of option parameters + dominator/path rules on SSA (custom analyzer)",
          "Decides, for every function of packages flag and cfgutil on the current tree, that no ...ucfg.Option parameter is dropped on the way to "
@@ -34,7 +41,14 @@ P = {
          "clauses of C19 that hold for all argument sequences at once; equality with a sequence of merges (a value-level fact) is not decided.",
          TRUST + "Does not cover user-supplied FileLoader functions.",
          "§3 C19"),
- "C20": (False, "", "", "", "§3 C20"),
+ "C20": (True,
+         "CFG path conditions with polarity evaluated as a finite truth table over comparison regions (custom analyzer)",
+         "Decides the index/name classifier for ALL integers and flags: the guard in front of every index-field return of parseField is read from "
+         "SSA and evaluated on every ordering region of (idx, maxIdx) x numKeys x parse error; it must equal !numKeys && parsed && 0<=idx<=maxIdx. "
+         "Also: names returned unmodified, numeric keys cleared only for multi-segment paths, ParseInt(in,0,64), parseField is the only text->index "
+         "classifier. Because the code touches the number only through comparisons the finite table is exhaustive; list growth is under C07.",
+         TRUST + "strconv.ParseInt is trusted to implement Go integer syntax.",
+         "§3 C20"),
 }
 
 NA = {
